@@ -29,6 +29,7 @@ func main() {
 	Register("lbo", runLbo)
 	Register("json", runJSON)
 	Register("canon", runCanon)
+	Register("crwin", runCRWindow)
 	Register("query", runQuery)
 	Register("yaml", runYAML)
 	Register("tokens", runTokens)
@@ -370,6 +371,40 @@ func trace(data []byte, policy string, stream bool) (steps string, off int64, li
 	return cb.String(), off, line, raw
 }
 
+// probeCounting observes which counting of the bytes dropped before the window the implementation under test
+// uses, separately for the two sites of cli/inputs.go (getContents for seekable input, jsonInputIter.Next for
+// non-seekable input), on 200 x 100-byte documents terminated by a lone CR followed by a faulty document:
+// the code before the repair of finding cr-window (bytes.Count(dropped, "\n")) leaves i.line at 0 on the pipe
+// path and reports a line below 201 on the seekable path.  The result only selects which instance of the Coq
+// model (Window.v, flag crfix) the MODEL verdict is computed with (atom lfcount in the transport list = old
+// counting); the SPEC verdict does not depend on it.  An implementation that counts in a third way disagrees
+// with both instances and shows up as a model mismatch.
+var countingProbe struct {
+	done      bool
+	seek, pip string
+}
+
+func countingAtom(transport string) string {
+	p := &countingProbe
+	if !p.done {
+		p.done = true
+		docCR := []byte(`{"a":"` + strings.Repeat("x", 91) + `"}` + "\r")
+		cr := append(bytes.Repeat(docCR, 200), []byte(`{"b": tru }`+"\r")...)
+		if _, _, ln, _ := trace(cr, "full", false); ln == 0 {
+			p.pip = " lfcount"
+		}
+		var out, er bytes.Buffer
+		cli.VerifRunC17([]string{"-c", "0"}, bytes.NewReader(cr), &out, &er)
+		if !strings.HasPrefix(er.String(), "gojq: invalid json: <stdin>:201\n") {
+			p.seek = " lfcount"
+		}
+	}
+	if transport == "pipe" {
+		return p.pip
+	}
+	return p.seek
+}
+
 func runJSONCase(c *Ctx, jc jsonCase, tmpdir string) (line string, ok bool) {
 	errk, has := refJSONError(jc.data)
 	if !has {
@@ -384,6 +419,7 @@ func runJSONCase(c *Ctx, jc jsonCase, tmpdir string) (line string, ok bool) {
 		sfx = " stream"
 	}
 	fname := "<stdin>"
+	sfx += countingAtom(jc.transport)
 	tr := "(" + jc.transport + sfx + ")"
 	chunks, state := "(c)", "(st)"
 	switch jc.transport {
@@ -420,7 +456,7 @@ func runJSONCase(c *Ctx, jc jsonCase, tmpdir string) (line string, ok bool) {
 	cli.VerifRunC17(args, stdin, &out, &er)
 	stderr := er.String()
 	rep := parseReport(stderr, "invalid json: ", fname, fname)
-	c.Count("json:" + jc.transport + strings.TrimSpace(sfx))
+	c.Count("json:" + jc.transport + strings.TrimSuffix(sfx, " lfcount"))
 	return fmt.Sprintf("(json %s %s %s %s %s %s %s %s %s)", tr, Hexs([]byte(fname)), rle(jc.data), errk, chunks, state,
 		Hexs([]byte(stderr)), rep, swtab(excerptOf(rep))), true
 }
@@ -658,6 +694,145 @@ func runCanon(c *Ctx) {
 	add(`control seek d7`, jsonCase{d7, "seek", "", false})
 	add(`control file d7`, jsonCase{d7, "file", "", false})
 	c.Stats["canon_names"] = names
+}
+
+
+// ---------------------------------------------------------------------------------------------
+// crwin: the neighbourhood of finding cr-window (fixed inputs, independent of the seed): documents of 12 / 100 /
+// 1000 / 5000 bytes terminated by CR, CR LF, LF or a mix (incl. CR CR LF and LF CR), the faulty document starting at
+// offsets around the thresholds of getContents (12288 = 3/4 window, 16384, 20480 = window + 1/4, 32768, ...), a
+// terminator placed exactly at the end of getContents' first / second chunk (CR LF split there: CR = last byte of
+// the chunk), seekable reader, file argument and non-seekable readers with full and short reads.
+
+var crwinTerms = map[string][]string{
+	"CR": {"\r"}, "CRLF": {"\r\n"}, "LF": {"\n"}, "mixed": {"\r", "\r\n", "\n", "\r\r\n", "\n\r", "\r"},
+}
+
+// a document `{"a":"xx..x"}`+term of exactly size bytes (size >= 8+len(term))
+func sizedDoc(size int, term string) []byte {
+	return []byte(`{"a":"` + strings.Repeat("x", size-8-len(term)) + `"}` + term)
+}
+
+// documents of about docsize bytes filling exactly total bytes; the last document ends with lastTerm
+func precExact(total, docsize int, ts []string, lastTerm string) []byte {
+	var b bytes.Buffer
+	for k := 0; ; k++ {
+		t := ts[k%len(ts)]
+		rem := total - b.Len()
+		if rem < 8+len(lastTerm) {
+			break
+		}
+		if rem < docsize+8+len(lastTerm)+4 || docsize < 8+len(t) {
+			b.Write(sizedDoc(rem, lastTerm))
+			break
+		}
+		b.Write(sizedDoc(docsize, t))
+	}
+	return b.Bytes()
+}
+
+// the ends of the chunks getContents drops for error offset E (code after the repair: a trailing CR is given back)
+func chunkEnds(data []byte, E int) (ends []int) {
+	pos, off := 0, E
+	for off > 12288 {
+		n := min(16384, off-4096)
+		if n > len(data)-pos {
+			n = len(data) - pos
+		}
+		if n > 0 && data[pos+n-1] == '\r' {
+			n--
+		}
+		if n == 0 {
+			break
+		}
+		pos, off = pos+n, off-n
+		ends = append(ends, pos)
+	}
+	return
+}
+
+func runCRWindow(c *Ctx) {
+	tmp, _ := os.MkdirTemp("", "c17h")
+	defer os.RemoveAll(tmp)
+	bads := [][2]string{{`{"b": tru }`, ""}, {`{"k":[1,`, `2,,3]}`}} // error on the first / on the second line of the document
+	short := []string{"512", "cyc", "7", "100", "4096"}
+	k := 0
+	emit := func(data []byte, what string) {
+		errk, has := refJSONError(data)
+		if !has || !strings.HasPrefix(errk, "(syn ") {
+			c.Count("crwin:no-error-skipped")
+			return
+		}
+		E, _ := strconv.Atoi(strings.TrimSuffix(strings.TrimPrefix(errk, "(syn "), ")"))
+		for _, e := range chunkEnds(data, E) {
+			if data[e] == '\r' && e+1 < len(data) && data[e+1] == '\n' {
+				c.Count("crwin:crlf-split-avoided-at-chunk-end")
+			} else if data[e] == '\r' {
+				c.Count("crwin:cr-given-back-at-chunk-end")
+			}
+		}
+		k++
+		trs := []jsonCase{{data, "seek", "", false}, {data, "pipe", "full", false}, {data, "pipe", short[k%len(short)], false}}
+		if k%7 == 0 {
+			trs = append(trs, jsonCase{data, "file", "", false})
+		}
+		for _, jc := range trs {
+			if l, ok := runJSONCase(c, jc, tmp); ok {
+				c.Emit("%s", l)
+				c.Count("crwin:" + what)
+			}
+		}
+	}
+	build := func(prec []byte, bad [2]string, ts []string) []byte {
+		t := ts[len(prec)%len(ts)]
+		data := append(append([]byte(nil), prec...), []byte(bad[0]+t+bad[1]+t)...)
+		if len(prec)%3 == 0 {
+			data = append(data, []byte("1"+t+"[2]"+t)...)
+		}
+		return data
+	}
+	targets := []int{0, 4000, 12277, 12278, 12279, 16373, 16374, 16375, 16383, 16384, 16385, 20469, 20470, 20471,
+		24576, 28671, 28672, 32767, 32768, 32769, 33000, 49152, 66000}
+	if c.Tier != "thorough" {
+		targets = []int{0, 12278, 12279, 16374, 16384, 16385, 20470, 20471, 28672, 32768, 32769, 49153}
+	}
+	for _, tn := range []string{"CR", "CRLF", "LF", "mixed"} {
+		ts := crwinTerms[tn]
+		for _, ds := range []int{12, 100, 1000, 5000} {
+			for ti, T := range targets {
+				if ds == 12 && T > 33000 {
+					continue
+				}
+				prec := precExact(T, ds, ts, ts[T%len(ts)])
+				emit(build(prec, bads[(ti+ds)%2], ts), "size-sweep:"+tn)
+			}
+		}
+		// a terminator exactly at the end of the first chunk (bytes [0, lim), lim = min(16384, E-4096)):
+		// E >= 20480: the first segment is 16384 bytes + the second byte of the terminator if it has two
+		for _, last := range []string{"\r\n", "\r", "\r\r\n"} {
+			if tn == "LF" {
+				continue
+			}
+			S := 16384 + len(last) - 1
+			for _, X := range []int{4200, 12000, 16384 + 4200, 16385 + 12288, 40000} {
+				// after the first segment, a second one that ends with the same terminator at the end of the second chunk
+				seg1 := precExact(S, 100, ts, last)
+				seg2 := precExact(X, 1000, ts, last)
+				emit(build(append(seg1, seg2...), bads[X%2], ts), "chunk-end:"+tn)
+			}
+			// 12288 < E < 20480: the first chunk ends 4096 bytes before the offending byte
+			for _, S0 := range []int{8300, 12000, 16000} {
+				for d := 4084; d <= 4088; d++ {
+					if c.Tier != "thorough" && d != 4085 && d != 4086 {
+						continue
+					}
+					seg1 := precExact(S0, 100, ts, last)
+					seg2 := precExact(d, 1000, []string{"\n"}, "\n")
+					emit(build(append(seg1, seg2...), bads[0], []string{"\n"}), "chunk-end:"+tn)
+				}
+			}
+		}
+	}
 }
 
 // ---------------------------------------------------------------------------------------------
@@ -1235,7 +1410,7 @@ func runBin(c *Ctx) {
 		fname := "<stdin>"
 		cmd := exec.Command(bin, "-c", "0")
 		cmd.Env = append(os.Environ(), "RUNEWIDTH_EASTASIAN=0")
-		tr := "(" + transport + ")"
+		tr := "(" + transport + countingAtom(transport) + ")"
 		path := filepath.Join(tmp, "in.json")
 		switch transport {
 		case "file":
